@@ -216,6 +216,48 @@ fn boundary_set() -> Vec<Value> {
     v
 }
 
+/// "any two values … joined are equal": the join lookup on INT keys that are neighbours where a REAL cannot tell them apart
+/// (2^53 ± k, i64 extremes ± k) and on REAL keys (±0.0, whole numbers): every pair the real program joins has equal keys, and
+/// every pair of lines with equal INT keys is joined (the count of pairs)
+fn join_lookup_cases(run: &mut Run, rng: &mut Rng, n: usize) {
+    use crate::engine_run::{prepare, run_files};
+    let defs = crate::c05::defs();
+    let jpath = crate::runq::tmp_file(b"");
+    let jp = jpath.display().to_string();
+    const BASES: &[i64] = &[0, 1, -1, 1 << 53, -(1 << 53), (1 << 53) + 2, 1 << 62, i64::MAX - 3, i64::MIN + 3, 3037000500, 1 << 24];
+    for _ in 0..n {
+        let base = *rng.pick(BASES);
+        let key = |rng: &mut Rng| base.saturating_add(rng.range(-3, 4));
+        let main: Vec<i64> = (0..1 + rng.below(5)).map(|_| key(rng)).collect();
+        let joined: Vec<i64> = (0..1 + rng.below(5)).map(|_| key(rng)).collect();
+        let main_text: String = main.iter().map(|v| format!("a;{};;;x;\n", v)).collect();
+        let joined_text: String = joined.iter().map(|v| format!("#b;{};y;\n", v)).collect();
+        std::fs::write(&jpath, joined_text.as_bytes()).unwrap();
+        let query = format!("SELECT t.v AS a, u.v AS b FROM t INNER JOIN u::'{}' ON t.v = u.v", jp);
+        let prepared = match prepare(&defs, &query) { Ok(p) => p, Err(_) => { run.count("join-lookup:rejected"); continue; } };
+        let out = run_files(&prepared, &[main_text.clone().into_bytes()]);
+        run.oracle_checks += 1;
+        let desc = format!("query={} main keys={:?} joined keys={:?}", query.replace(&jp, "J"), main, joined);
+        if out.status != "ok" { run.fail(desc, "join-lookup-error", format!("the join answers {}", out.status)); continue; }
+        let mut pairs = 0usize;
+        let mut bad = None;
+        for rec in out.records() {
+            let cells: Vec<&str> = rec.split(", ").collect();
+            let val = |i: usize| cells.get(i).and_then(|c| c.splitn(2, ": ").nth(1)).unwrap_or("");
+            pairs += 1;
+            if val(0) != val(1) { bad = Some(rec.clone()); }
+        }
+        let want: usize = main.iter().map(|a| joined.iter().filter(|b| *b == a).count()).sum();
+        run.count(if want > 0 { "join-lookup:pairs" } else { "join-lookup:no-pairs" });
+        if let Some(rec) = bad {
+            run.fail(desc, "joined-values-not-equal", format!("the record `{}` joins two different keys", rec));
+        } else if pairs != want {
+            run.fail(desc, "join-lookup-pair-count", format!("{} pairs are joined, {} pairs of lines have equal keys", pairs, want));
+        }
+    }
+    let _ = std::fs::remove_file(&jpath);
+}
+
 pub fn run(p: &Params) -> Run {
     let mut run = Run::new("C16");
     let mut rng = Rng::new(p.seed ^ 0x16);
@@ -235,6 +277,8 @@ pub fn run(p: &Params) -> Run {
     cmpir_cases(&mut run, &mut rng, p.n(1500, 60_000));
     // array_unique (named in the sentence): unique by the one order, also for NaN / -0.0 / NULL elements
     crate::c03::array_unique_cases(&mut run, &mut rng, p.n(600, 20_000));
+    // join lookup (named in the sentence): joined values are equal, equal values are joined
+    join_lookup_cases(&mut run, &mut rng, p.n(150, 4000));
     let n = p.n(4000, 200_000);
     for _ in 0..n {
         // mostly same-typed triples (where the order matters), sometimes mixed
